@@ -35,9 +35,12 @@ impl ParseTree
 	) -> Self
 	{
 		// For nodes, we want to avoid the realloc at all costs.
-		// TODO so 1 is too small, 2 is very likely true but a bit of a magic number
+		// A bare identifier in a list of member initializers (`a,`) already
+		// takes seven nodes for two tokens: list item, field, deref, address
+		// depth, identifier, the list of its steps and the end of that list.
+		// So two nodes per token is not enough; round 3.5 up generously.
 		let num_tokens =
-			MAX_PARSE_NODE_CONTEXT + 2 * tokens.base_tokens().len();
+			MAX_PARSE_NODE_CONTEXT + 8 * tokens.base_tokens().len();
 		let nodes = Vec::with_capacity(num_tokens);
 
 		// The caller knows how many declarations there can be.
